@@ -27,7 +27,7 @@ type condSpec struct {
 	file, fn string
 	params   []cparam
 	lets     []string // Go locals, in source order, translated as `let` (their first assignment in the function)
-	result   string   // "local:<name>" | "if:<marker>" (condition of the first `if` whose text contains marker) | "assign:<lhs text>"
+	result   string   // "local:<name>" | "if:<marker>" (condition of the first `if` whose text contains marker) | "assign:<lhs text>" | "incdec:<lhs text>" (x++ / x-- only)
 	retTy    string
 }
 
@@ -178,7 +178,7 @@ func (s condSpec) translate(repo string) (string, error) {
 				result = t
 			}
 		case *ast.IncDecStmt:
-			if s.result == "assign:"+showN(st.X) && result == "" {
+			if (s.result == "assign:"+showN(st.X) || s.result == "incdec:"+showN(st.X)) && result == "" {
 				t, err := c.tr(st.X)
 				if err != nil {
 					firstErr = err
@@ -273,6 +273,18 @@ func init() {
 			result: "assign:ei.CurrentEpoch", retTy: "Int"},
 		{leanName: "endCurStart", file: "x/epochs/types/epoch_info.go", fn: "EndEpoch", params: eiParams,
 			result: "assign:ei.CurrentEpochStartTime", retTy: "Int"},
+	}))
+	ei64 := []cparam{{"ei.CurrentEpoch", "cur", "Int64"}}
+	extractors = append(extractors, condExtractor("epochs-counters", "EpochsCounters", []condSpec{
+		// the same increment as the machine performs it: `CurrentEpoch` is an int64
+		{leanName: "endCur64", file: "x/epochs/types/epoch_info.go", fn: "EndEpoch", params: ei64, result: "assign:ei.CurrentEpoch", retTy: "Int64"},
+	}))
+	extractors = append(extractors, condExtractor("inflation-counters", "InflationCounters", []condSpec{
+		// `skippedEpochs++` and `period++` of AfterEpochEnd: uint64 increments
+		{leanName: "skippedNext", file: "x/inflation/keeper/hooks.go", fn: "AfterEpochEnd",
+			params: []cparam{{"skippedEpochs", "skippedEpochs", "UInt64"}}, result: "incdec:skippedEpochs", retTy: "UInt64"},
+		{leanName: "periodNext", file: "x/inflation/keeper/hooks.go", fn: "AfterEpochEnd",
+			params: []cparam{{"period", "period", "UInt64"}}, result: "incdec:period", retTy: "UInt64"},
 	}))
 	extractors = append(extractors, condExtractor("inflation-conds", "InflationConds", []condSpec{
 		{leanName: "periodPassed", file: "x/inflation/keeper/hooks.go", fn: "AfterEpochEnd",
